@@ -114,12 +114,22 @@ def classify(t):
 def lex(text):
     """Reference lexer: list of Tok with 1-based line/column of each token start."""
     toks = []
+    line, linestart = 1, 0  # linestart: offset of the first character of the current line
     for lx in lexemes(text):
-        if lx.cls != "tok":
-            continue
-        kind, value = classify(lx.text)
-        nl = text.rfind("\n", 0, lx.offset)
-        toks.append(Tok(kind, value, lx.text, lx.offset, text.count("\n", 0, lx.offset) + 1, lx.offset - nl))
+        if lx.cls == "tok":
+            t = lx.text
+            if t == "\n":
+                toks.append(Tok("NL", "\n", t, lx.offset, line, lx.offset - linestart + 1))
+                line += 1
+                linestart = lx.offset + 1
+            else:
+                kind, value = classify(t)
+                toks.append(Tok(kind, value, t, lx.offset, line, lx.offset - linestart + 1))
+        elif lx.cls == "block-comment":
+            n = lx.text.count("\n")
+            if n:
+                line += n
+                linestart = lx.offset + lx.text.rfind("\n") + 1
     return toks
 
 
@@ -148,10 +158,10 @@ _LOI = ("IDENT", "INT")
 # the last argument of the open gate into an open array_item node
 
 
-def _end_of_statement(in_body, frames, kind, pre):
+def _end_of_statement(in_body, frames, kind, pre, relaxed=False):
     """Behaviour after a complete statement: a separator, or the end of the enclosing block."""
     ctx = frames[-1][0]
-    if kind == "NL" or (kind == ";" and ctx in "TS") or (kind == "|" and ctx == "P"):
+    if kind == "NL" or (kind == ";" and ctx in "TS") or (kind == "|" and ctx == "P") or (relaxed and kind in (";", "|")):
         return (in_body, frames, "item?"), pre
     if (kind == "}" and ctx == "S") or (kind == ">" and ctx == "P"):
         owner = frames[-1][1:]
@@ -160,27 +170,28 @@ def _end_of_statement(in_body, frames, kind, pre):
     return None
 
 
-def _start_of_item(in_body, frames, kind):
+def _start_of_item(in_body, frames, kind, relaxed=False):
     ctx = frames[-1][0]
     body = True if ctx == "T" else in_body
+    R = relaxed  # the superset language: any statement in any list context
     if kind == "IDENT":
         return (body, frames, "gate0"), (("OV", "gate"),)
-    if kind == "{" and ctx in "TP":
+    if kind == "{" and (R or ctx in "TP"):
         return (body, frames + ("S",), "item?"), (("O", "sequential_block"),)
-    if kind == "<" and ctx in "TS":
+    if kind == "<" and (R or ctx in "TS"):
         return (body, frames + ("P",), "item?"), (("O", "parallel_block"),)
-    if kind == "loop" and ctx in "TS":
+    if kind == "loop" and (R or ctx in "TS"):
         return (body, frames, "loop0"), (("O", "loop"),)
-    if kind == "subcircuit" and ctx in "TS":
+    if kind == "subcircuit" and (R or ctx in "TS"):
         return (body, frames, "sub0"), (("O", "subcircuit_block"),)
-    if kind == "macro" and ctx == "T":
+    if kind == "macro" and (R or ctx == "T"):
         return (body, frames, "macro0"), (("O", "macro"),)
-    if kind in _HEADER_START and ctx == "T" and not in_body:
+    if kind in _HEADER_START and (R or (ctx == "T" and not in_body)):
         return (in_body, frames, _HEADER_START[kind]), (("O", _HEADER_NODE[kind]),)
     return None
 
 
-def _delta(config, kind):
+def _delta(config, kind, relaxed=False):
     in_body, frames, mode = config
     V, E = ("V",), ("E",)
 
@@ -188,9 +199,9 @@ def _delta(config, kind):
         return (in_body, frames, m), acts
 
     if mode == "item?":
-        return _end_of_statement(in_body, frames, kind, ()) or _start_of_item(in_body, frames, kind)
+        return _end_of_statement(in_body, frames, kind, (), relaxed) or _start_of_item(in_body, frames, kind, relaxed)
     if mode == "after":
-        return _end_of_statement(in_body, frames, kind, ())
+        return _end_of_statement(in_body, frames, kind, (), relaxed)
     # ---- gate statement: IDENT { IDENT | INT | NUMBER | IDENT '[' (IDENT | INT) ']' }
     if mode in ("gate0", "gateI", "gateN"):
         if kind == "IDENT":
@@ -199,7 +210,7 @@ def _delta(config, kind):
             return to("gateN", V)
         if kind == "[" and mode == "gateI":
             return to("gate[", ("X",))
-        return _end_of_statement(in_body, frames, kind, (E,))
+        return _end_of_statement(in_body, frames, kind, (E,), relaxed)
     if mode == "gate[":
         return to("gate[x", V) if kind in _LOI else None
     if mode == "gate[x":
@@ -226,7 +237,7 @@ def _delta(config, kind):
     if mode == "map2":
         if kind == "[":
             return to("map[")
-        return _end_of_statement(in_body, frames, kind, (E,))
+        return _end_of_statement(in_body, frames, kind, (E,), relaxed)
     if mode == "map[":
         if kind in _LOI:
             return to("map[a", V)
@@ -306,6 +317,23 @@ def delta(config, kind):
         return _DELTA[key]
     except KeyError:
         r = _DELTA[key] = _delta(config, kind)
+        return r
+
+
+_DELTA_RELAXED = {}
+
+
+def delta_relaxed(config, kind):
+    """The same automaton for a *superset* language in which every kind of statement (header
+    statements included) may stand in every statement list and `;` / `|` separate anywhere.
+    It never judges a text; the check uses it to extend a prefix beyond a token that is offending
+    only because of its context, so that a parser which wrongly shifts such a token is exposed by
+    accepting the completed text."""
+    key = (config, kind)
+    try:
+        return _DELTA_RELAXED[key]
+    except KeyError:
+        r = _DELTA_RELAXED[key] = _delta(config, kind, True)
         return r
 
 
@@ -642,7 +670,7 @@ def _walk_crosscheck(kinds_alphabet, maxlen, earley, stats):
                 rec(r[0], depth + 1, word + (k,))
                 earley.pop()
             else:
-                stats["strings"] += len(kinds_alphabet) ** 0  # the dead string itself
+                stats["strings"] += 1  # the dead string itself (all its extensions die at the same token)
                 stats["dead"] += 1
 
     earley.reset()
@@ -668,7 +696,10 @@ def _shortest_completion_length(config, limit):
 
 
 def selfcheck(maxlen=5, full_maxlen=3):
-    """Raise AssertionError if the model is inconsistent with itself. Returns statistics."""
+    """Raise AssertionError if the model is inconsistent with itself. Returns statistics.
+
+    full_maxlen: length bound for the cross-check over the full alphabet of token kinds;
+    maxlen: length bound over each of the reduced alphabets."""
     from . import render
 
     stats = {"strings": 0, "dead": 0, "configs": 0, "close_checked": 0, "roundtrips": 0}
